@@ -1,0 +1,28 @@
+//! Helpers to safely read untrusted bytes.
+
+use cosmian_crypto_core::bytes_ser_de::Deserializer;
+
+use crate::Error;
+
+/// Reads a length-prefixed vector of bytes.
+///
+/// The announced length is checked against the number of remaining bytes
+/// *before* allocating the vector.
+pub(crate) fn read_vec(de: &mut Deserializer) -> Result<Vec<u8>, Error> {
+    let len = Deserializer::new(de.value()).read_leb128_u64()?;
+    if (de.value().len() as u64) < len {
+        return Err(Error::ConversionFailed(format!(
+            "cannot read a {len}-byte vector: only {} bytes remain",
+            de.value().len()
+        )));
+    }
+    de.read_vec().map_err(Error::from)
+}
+
+/// Bounds the capacity to allocate for a sequence of `n` elements to read.
+///
+/// Each element is at least one-byte long: there cannot be more elements than
+/// remaining bytes.
+pub(crate) fn bounded_capacity(n: usize, de: &Deserializer) -> usize {
+    n.min(de.value().len())
+}
